@@ -183,6 +183,32 @@ def check_error_model():
                     fails.append((f"{label};seed={seed}", "mapped circuit is not a valid sub-unitary circuit"))
                 if m1.heralds != c.heralds:
                     fails.append((f"{label};seed={seed}", "heralds differ"))
+    # equal seeds give equal circuits also across FRESHLY created, identically configured error models / Reck objects (nothing may depend on object
+    # identity or creation order); and a default Reck() is ideal whatever was done to another default Reck's error model before
+    def fresh_model():
+        e = inter.ErrorModel()
+        e.bs_reflectivity = dists.Gaussian(0.5, 0.05, min_value=0.45, max_value=0.56)
+        e.loss = dists.TopHat(0.01, 0.2)
+        e.phase_offset = dists.Gaussian(0.0, 0.3, min_value=-0.2, max_value=0.25)
+        return e
+    c = lw.Unitary(haar(4, 2))
+    first = [repr(x) for x in inter.Reck(error_model=fresh_model()).map(c, seed=11)._get_circuit_spec()]
+    keep = []
+    for rep in range(12):
+        n += 1
+        keep.append(object())                   # vary the allocation pattern between the models
+        again = [repr(x) for x in inter.Reck(error_model=fresh_model()).map(c, seed=11)._get_circuit_spec()]
+        if again != first:
+            fails.append((f"fresh error model #{rep};seed=11", "an identically configured, freshly created error model gives another circuit for the same seed"))
+            break
+    n += 1
+    ideal = [repr(x) for x in inter.Reck().map(c)._get_circuit_spec()]
+    r0 = inter.Reck()
+    r0.error_model.loss = dists.TopHat(0.1, 0.2)
+    r0.error_model.bs_reflectivity = dists.Constant(0.4)
+    after = [repr(x) for x in inter.Reck().map(c)._get_circuit_spec()]
+    if after != ideal:
+        fails.append(("default Reck() after another default Reck's error model was edited", "a default-constructed Reck is no longer ideal (error model object shared between instances)"))
     # distributions alone: values within bounds, seeds reproducible, invalid bounds rejected
     inf = float("inf")
     for d, lo, hi in ((dists.Gaussian(1.0, 5.0, min_value=0.5, max_value=1.2), 0.5, 1.2), (dists.TopHat(-1.0, 2.0), -1.0, 2.0), (dists.Constant(0.3), 0.3, 0.3),
